@@ -112,6 +112,10 @@ def run_property(prop, tier, seed, workers=None, replay=None, keep_logs=False, q
     logdir = tempfile.mkdtemp(prefix=f"verif-{prop}-", dir=os.environ.get("VERIF_TMP", "/var/tmp"))
     procs = []
     inconclusive = []
+    # workers run inside a scratch directory (removed afterwards): code under test that resolves a bad relative path must
+    # not be able to litter /verif (the DTR writer's dangling path pointer creates directories with garbage names)
+    wcwd = os.path.join(logdir, "cwd")
+    os.makedirs(wcwd, exist_ok=True)
     if replay:
         nworkers = 1
     for w in range(nworkers):
@@ -121,7 +125,7 @@ def run_property(prop, tier, seed, workers=None, replay=None, keep_logs=False, q
         if replay:
             cmd += ["--case-file", os.path.abspath(replay)]
         errf = open(os.path.join(logdir, f"w{w}.err"), "w")
-        procs.append((w, out, errf, subprocess.Popen(cmd, cwd=VERIF, env=env, stdout=errf, stderr=errf)))
+        procs.append((w, out, errf, subprocess.Popen(cmd, cwd=wcwd, env=env, stdout=errf, stderr=errf)))
     # extra worker groups, e.g. the sanitizer-instrumented build riding on a sub-stream of the same cases
     san_info = []
     san_workers = {}
@@ -147,7 +151,7 @@ def run_property(prop, tier, seed, workers=None, replay=None, keep_logs=False, q
             cmd = [PY, "-u", "-m", "vlib.worker", prop, "--tier", tier, "--seed", str(seed), "--worker", str(w),
                    "--nworkers", str(gn), "--out", out, "--budget", str(budget), "--group", grp["name"]]
             errf = open(os.path.join(logdir, f"w{wid}.err"), "w")
-            procs.append((wid, out, errf, subprocess.Popen(cmd, cwd=VERIF, env=genv, stdout=errf, stderr=errf)))
+            procs.append((wid, out, errf, subprocess.Popen(cmd, cwd=wcwd, env=genv, stdout=errf, stderr=errf)))
 
     deadline = time.time() + wd
     for w, out, errf, p in procs:
